@@ -1,9 +1,308 @@
 /-
-  QEModel.C03 — executable model for property C03 (stub; to be filled in).
+  QEModel.C03 — communication / recurrent / cyclic classes and period
+  (pure graph logic).  Mirrors quantecon/_graph_tools.py (DiGraph: `_find_scc`,
+  `_condensation_lil`, `_find_sink_scc`, `*_components_indices`, `_compute_period`,
+  `cyclic_components_indices`, `subgraph`, `annotate_nodes`) and
+  quantecon/markov/core.py (MarkovChain: `is_irreducible`, `*_classes[_indices]`,
+  `period`, `is_aperiodic`, `cyclic_classes[_indices]`).
+
+  A digraph is `n` plus the CSR structure of `self.csgraph`: for every row `u` the
+  stored column indices in storage order (`G.out u`).  SciPy's
+  `connected_components(connection='strong')` is replaced by the model's own
+  computation (frontier saturation + mutual reachability) and compared by output;
+  SciPy's `breadth_first_order` is mirrored as a queue BFS.
 -/
 import QEModel.Base
 namespace QE.C03
 
-def handle (_toks : List String) : String := "bad-op"
+structure G where
+  n : Nat
+  succ : List (List Nat)
+deriving Repr
+
+namespace G
+
+/-- stored column indices of row `u` (CSR order) -/
+def out (g : G) (u : Nat) : List Nat := g.succ.getD u []
+
+/-- shape check: `n` rows, all column indices `< n` -/
+def wf (g : G) : Bool := g.succ.length == g.n && g.succ.all (fun r => r.all (fun v => decide (v < g.n)))
+
+/-- `_csr_matrix_indices(S)`: the stored `(row, col)` pairs, row by row -/
+def edges (g : G) : List (Nat × Nat) :=
+  (List.range g.n).flatMap fun u => (g.out u).map fun v => (u, v)
+
+end G
+
+/-! ### reachability by frontier saturation -/
+
+/-- one round: `S ∪ succ(S)`, as a sub-list of `range n` -/
+def expand (g : G) (S : List Nat) : List Nat :=
+  (List.range g.n).filter fun v => S.contains v || S.any fun u => (g.out u).contains v
+
+/-- iterate `expand` until nothing changes; `none` when the fuel runs out before
+    saturation has been observed (explicit saturation test) -/
+def reachLoop (g : G) : Nat → List Nat → Option (List Nat)
+  | 0, S => if expand g S == S then some S else none
+  | k + 1, S => if expand g S == S then some S else reachLoop g k (expand g S)
+
+/-- the set of nodes reachable from `s` (in 0 or more steps), fuel `n` -/
+def reachFrom (g : G) (s : Nat) : Option (List Nat) :=
+  reachLoop g g.n ((List.range g.n).filter fun v => v == s)
+
+/-- row `u` = reach set of `u` (`[]` stands for "no answer"; `reachOK` is the guard) -/
+def reachTable (g : G) : List (List Nat) :=
+  (List.range g.n).map fun u => (reachFrom g u).getD []
+
+def reachOK (g : G) : Bool := (List.range g.n).all fun u => (reachFrom g u).isSome
+
+/-! ### strongly connected components (`_find_scc`, `strongly_connected_components_indices`) -/
+
+/-- `u` and `v` communicate -/
+def comm (R : List (List Nat)) (u v : Nat) : Bool :=
+  (R.getD u []).contains v && (R.getD v []).contains u
+
+/-- the communication class of `u`, increasing -/
+def sccOf (R : List (List Nat)) (n u : Nat) : List Nat :=
+  (List.range n).filter fun v => comm R u v
+
+/-- all classes, each once (kept at its least member), ordered by least member -/
+def sccList (R : List (List Nat)) (n : Nat) : List (List Nat) :=
+  ((List.range n).filter fun u => (sccOf R n u).head? == some u).map (sccOf R n)
+
+/-- the classes; `none` when some reachability computation did not saturate -/
+def sccClasses (g : G) : Option (List (List Nat)) :=
+  if reachOK g then some (sccList (reachTable g) g.n) else none
+
+/-- `scc_proj` (with the model's own numbering of the classes) -/
+def classIdx (Cs : List (List Nat)) (u : Nat) : Nat := Cs.findIdx fun C => C.contains u
+
+/-! ### condensation and sink components (`_condensation_lil`, `_find_sink_scc`) -/
+
+/-- entries set to `True` in `condensation_lil`, edge by edge -/
+def condEdges (g : G) (Cs : List (List Nat)) : List (Nat × Nat) :=
+  (g.edges.filter fun e => classIdx Cs e.1 != classIdx Cs e.2).map
+    fun e => (classIdx Cs e.1, classIdx Cs e.2)
+
+/-- `np.where(np.logical_not(condensation_lil.rows))[0]`: labels whose row is empty -/
+def sinkLabels (g : G) (Cs : List (List Nat)) : List Nat :=
+  (List.range Cs.length).filter fun k => !(condEdges g Cs).any fun e => e.1 == k
+
+/-- `sink_strongly_connected_components_indices` (general branch) -/
+def sinkClasses (g : G) (Cs : List (List Nat)) : List (List Nat) :=
+  (sinkLabels g Cs).map fun k => Cs.getD k []
+
+/-! ### breadth-first search from node 0 (`csgraph.breadth_first_order`) -/
+
+/-- visited nodes in discovery order: `(node, predecessor, level)`;
+    the root has predecessor `none` (SciPy: -9999) -/
+abbrev Vis := List (Nat × Option Nat × Nat)
+
+def visLookup (vis : Vis) (v : Nat) : Option (Nat × Option Nat × Nat) := vis.find? fun e => e.1 == v
+
+def visited (vis : Vis) (v : Nat) : Bool := (visLookup vis v).isSome
+
+/-- `level[v]` (0 where the BFS did not arrive; the callers check `allVisited`) -/
+def levelOf (vis : Vis) (v : Nat) : Int :=
+  match visLookup vis v with
+  | some e => (e.2.2 : Int)
+  | none => 0
+
+/-- `predecessors[v]` -/
+def predOf (vis : Vis) (v : Nat) : Option Nat := (visLookup vis v).bind fun e => e.2.1
+
+/-- scan the neighbours of `u` (level `lu`) in CSR order, appending the new ones -/
+def bfsVisit (vis : Vis) (u lu : Nat) : List Nat → Vis
+  | [] => vis
+  | v :: vs =>
+    if visited vis v then bfsVisit vis u lu vs
+    else bfsVisit (vis ++ [(v, some u, lu + 1)]) u lu vs
+
+/-- `while i_nl < i_nl_end`: process the `i`-th node of the queue -/
+def bfsLoop (g : G) : Nat → Nat → Vis → Vis
+  | 0, _, vis => vis
+  | fuel + 1, i, vis =>
+    match vis[i]? with
+    | none => vis
+    | some e => bfsLoop g fuel (i + 1) (bfsVisit vis e.1 e.2.2 (g.out e.1))
+
+def bfs (g : G) : Vis := bfsLoop g g.n 0 [(0, none, 0)]
+
+def allVisited (g : G) (vis : Vis) : Bool := (List.range g.n).all fun v => visited vis v
+
+/-! ### period (`_compute_period`) -/
+
+/-- `level[node_from] - level[node_to] + 1` -/
+def edgeVal (lev : Nat → Int) (e : Nat × Nat) : Int := lev e.1 - lev e.2 + 1
+
+/-- one pass of the `for node_from, node_to in …` loop; the early `return` at
+    `d == 1` is the first branch -/
+def gcdStep (lev : Nat → Int) (d : Nat) (e : Nat × Nat) : Nat :=
+  if d == 1 then 1 else Nat.gcd d (edgeVal lev e).natAbs
+
+/-- entries of `self.csgraph - bfs_tree_csr` after `eliminate_zeros` -/
+def nonTree (vis : Vis) (es : List (Nat × Nat)) : List (Nat × Nat) :=
+  es.filter fun e => predOf vis e.2 != some e.1
+
+def periodBFS (g : G) (vis : Vis) : Nat :=
+  (nonTree vis g.edges).foldl (gcdStep (levelOf vis)) 0
+
+inductive Res (α : Type) where
+  | ok (a : α)
+  | notImpl          -- NotImplementedError
+  | stuck            -- the model's own guard failed (never expected)
+deriving Repr
+
+def hasSelfLoop (g : G) : Bool := (List.range g.n).any fun u => (g.out u).contains u
+
+def isSC (Cs : List (List Nat)) : Bool := Cs.length == 1
+
+/-- `DiGraph.period` together with `_cyclic_components_proj` (as the level table
+    and the modulus; `none` = all zeros) -/
+def periodDG (g : G) (Cs : List (List Nat)) : Res (Nat × Option Vis) :=
+  if g.n == 1 then .ok (1, none)
+  else if !isSC Cs then .notImpl
+  else if hasSelfLoop g then .ok (1, none)
+  else
+    let vis := bfs g
+    if !allVisited g vis then .stuck
+    else
+      let d := periodBFS g vis
+      if d == 1 then .ok (1, none) else .ok (d, some vis)
+
+/-- `cyclic_components_indices` -/
+def cyclicClasses (g : G) (d : Nat) (proj : Option Vis) : List (List Nat) :=
+  match proj with
+  | none => [List.range g.n]
+  | some vis =>
+    if d == 1 then [List.range g.n]
+    else (List.range d).map fun (k : Nat) =>
+      (List.range g.n).filter fun v => levelOf vis v % (d : Int) == (k : Int)
+
+/-! ### sub-graph on a class and the period of a reducible chain -/
+
+/-- `DiGraph.subgraph(nodes)`: `csgraph[np.ix_(nodes, nodes)]` -/
+def subgraph (g : G) (nodes : List Nat) : G :=
+  ⟨nodes.length, nodes.map fun u => (g.out u).filterMap fun v =>
+    if nodes.contains v then some (nodes.idxOf v) else none⟩
+
+def lcmStep (d p : Nat) : Nat := (d * p) / Nat.gcd d p
+
+/-- `MarkovChain.period` for a reducible chain: fold of `d*period // gcd(d, period)`
+    over the recurrent classes -/
+def periodRec (g : G) : List (List Nat) → Nat → Res Nat
+  | [], d => .ok d
+  | C :: rest, d =>
+    let h := subgraph g C
+    match sccClasses h with
+    | none => .stuck
+    | some Cs' =>
+      match periodDG h Cs' with
+      | .ok (p, _) => periodRec g rest (lcmStep d p)
+      | .notImpl => .notImpl
+      | .stuck => .stuck
+
+/-- `MarkovChain.period` -/
+def periodMC (g : G) (Cs : List (List Nat)) : Res Nat :=
+  if isSC Cs then
+    match periodDG g Cs with
+    | .ok (p, _) => .ok p
+    | .notImpl => .notImpl
+    | .stuck => .stuck
+  else periodRec g (sinkClasses g Cs) 1
+
+/-! ### line protocol -/
+
+open QE
+
+def showClasses (lab : Nat → String) (Cs : List (List Nat)) : String := showMat lab Cs
+
+def labeller (labels : Option (List Int)) : Nat → String :=
+  match labels with
+  | none => fun u => toString u
+  | some L => fun u => match L[u]? with
+    | some z => toString z
+    | none => "?"
+
+/-- everything `DiGraph` reports for one graph -/
+def reportDG (g : G) (lab : Nat → String) : String :=
+  match sccClasses g with
+  | none => "stuck"
+  | some Cs =>
+    let sc := isSC Cs
+    -- `[np.arange(n)]` shortcut of the `*_indices` properties when strongly connected
+    let sccs := if sc then [List.range g.n] else Cs
+    let sinks := if sc then [List.range g.n] else sinkClasses g Cs
+    let per := match periodDG g Cs with
+      | .ok (d, proj) =>
+        "period=" ++ toString d ++ " aper=" ++ showBool (d == 1) ++ " cyc=" ++ showClasses lab (cyclicClasses g d proj)
+      | .notImpl => "period=ERR:NotImplementedError aper=ERR:NotImplementedError cyc=ERR:NotImplementedError"
+      | .stuck => "period=stuck"
+    "sc=" ++ showBool sc ++ " nscc=" ++ toString Cs.length ++ " nsink=" ++ toString (sinkLabels g Cs).length
+      ++ " scc=" ++ showClasses lab sccs ++ " sink=" ++ showClasses lab sinks ++ " " ++ per
+
+/-- everything `MarkovChain` reports for one chain -/
+def reportMC (g : G) (lab : Nat → String) : String :=
+  match sccClasses g with
+  | none => "stuck"
+  | some Cs =>
+    let sc := isSC Cs
+    let sccs := if sc then [List.range g.n] else Cs
+    let sinks := if sc then [List.range g.n] else sinkClasses g Cs
+    let per := match periodMC g Cs with
+      | .ok d => "period=" ++ toString d ++ " aper=" ++ showBool (d == 1)
+      | .notImpl => "period=ERR:NotImplementedError aper=ERR:NotImplementedError"
+      | .stuck => "period=stuck"
+    let cyc :=
+      if !sc then "cyc=ERR:NotImplementedError"
+      else match periodDG g Cs with
+        | .ok (d, proj) => "cyc=" ++ showClasses lab (cyclicClasses g d proj)
+        | .notImpl => "cyc=ERR:NotImplementedError"
+        | .stuck => "cyc=stuck"
+    "irr=" ++ showBool sc ++ " ncomm=" ++ toString Cs.length ++ " nrec=" ++ toString (sinkLabels g Cs).length
+      ++ " comm=" ++ showClasses lab sccs ++ " rec=" ++ showClasses lab sinks ++ " " ++ per ++ " " ++ cyc
+
+def parseGraph (r : List String) : Option (G × (Nat → String)) :=
+  match kvNat r "n", kvNatMat r "adj" with
+  | some n, some adj =>
+    -- a single empty row is written `-`, which the matrix parser reads as "no rows"
+    let g : G := ⟨n, if n == 1 && adj.isEmpty then [[]] else adj⟩
+    if n == 0 || !g.wf then none
+    else
+      match kv r "labels" with
+      | none => some (g, labeller none)
+      | some _ =>
+        match kvInts r "labels" with
+        | some L => if L.length == n then some (g, labeller (some L)) else none
+        | none => none
+  | _, _ => none
+
+def handle (toks : List String) : String :=
+  match toks with
+  | "dg" :: r =>
+    match parseGraph r with
+    | some (g, lab) => reportDG g lab
+    | none => "bad-op"
+  | "mc" :: r =>
+    match parseGraph r with
+    | some (g, lab) => reportMC g lab
+    | none => "bad-op"
+  | "reach" :: r =>
+    match parseGraph r, kvNat r "s" with
+    | some (g, _), some s =>
+      if s < g.n then
+        match reachFrom g s with
+        | some S => showList toString S
+        | none => "stuck"
+      else "bad-op"
+    | _, _ => "bad-op"
+  | "levels" :: r =>
+    match parseGraph r with
+    | some (g, _) =>
+      let vis := bfs g
+      showList (fun (e : Nat × Option Nat × Nat) =>
+        toString e.1 ++ ":" ++ (match e.2.1 with | some p => toString p | none => "r") ++ ":" ++ toString e.2.2) vis
+    | none => "bad-op"
+  | _ => "bad-op"
 
 end QE.C03
